@@ -18,7 +18,7 @@ import (
 )
 
 type jv struct {
-	k    byte // n null, b bool, i int64 (compact in msgpack), I int64 (always 8 bytes in msgpack), u uint64, f float64, g float32, s string, a array, o object, r raw
+	k    byte // n null, b bool, i int64 (compact signed in msgpack), I int64 (always 8 bytes in msgpack), u uint64 (8 bytes), U unsigned (compact, as a standard encoder writes non-negative integers), f float64, g float32, s string, a array, o object, r raw
 	b    bool
 	i    int64
 	u    uint64
@@ -36,6 +36,7 @@ func jBool(b bool) *jv     { return &jv{k: 'b', b: b} }
 func jInt(i int64) *jv     { return &jv{k: 'i', i: i} }
 func jInt64(i int64) *jv   { return &jv{k: 'I', i: i} }
 func jUint(u uint64) *jv   { return &jv{k: 'u', u: u} }
+func jUintC(u uint64) *jv  { return &jv{k: 'U', u: u} }
 func jF64(f float64) *jv   { return &jv{k: 'f', f: f} }
 func jF32(f float32) *jv   { return &jv{k: 'g', f: float64(f)} }
 func jStr(s string) *jv    { return &jv{k: 's', s: s} }
@@ -119,7 +120,7 @@ func (v *jv) json(w *bytes.Buffer) {
 		w.WriteString(strconv.FormatBool(v.b))
 	case 'i', 'I':
 		w.WriteString(strconv.FormatInt(v.i, 10))
-	case 'u':
+	case 'u', 'U':
 		w.WriteString(strconv.FormatUint(v.u, 10))
 	case 'f':
 		switch {
@@ -248,6 +249,22 @@ func (v *jv) msgpack(w *bytes.Buffer) {
 	case 'u':
 		w.WriteByte(0xcf)
 		binary.Write(w, binary.BigEndian, v.u)
+	case 'U':
+		switch {
+		case v.u <= 127:
+			w.WriteByte(byte(v.u))
+		case v.u <= math.MaxUint8:
+			w.Write([]byte{0xcc, byte(v.u)})
+		case v.u <= math.MaxUint16:
+			w.WriteByte(0xcd)
+			binary.Write(w, binary.BigEndian, uint16(v.u))
+		case v.u <= math.MaxUint32:
+			w.WriteByte(0xce)
+			binary.Write(w, binary.BigEndian, uint32(v.u))
+		default:
+			w.WriteByte(0xcf)
+			binary.Write(w, binary.BigEndian, v.u)
+		}
 	case 'f':
 		w.WriteByte(0xcb)
 		binary.Write(w, binary.BigEndian, math.Float64bits(v.f))
